@@ -198,6 +198,14 @@ def _root_place(body, o, depth=6):
         if p["pr"] and p["pr"] != ["*"]:
             return p
         if body.local_name(p["l"]) is not None:
+            # a pattern binding `x = copy (scrutinee as Variant).0` stands for that payload place
+            ds = body.defs_of(p["l"])
+            if len(ds) == 1 and ds[0][3].get("k") == "Use" and "p" in ds[0][3]["o"] and \
+                    any(x.startswith("@") for x in ds[0][3]["o"]["p"]["pr"]):
+                return ds[0][3]["o"]["p"]
+            if len(ds) == 1 and ds[0][3].get("k") == "Ref" and p["pr"] == ["*"] and \
+                    any(x.startswith("@") for x in ds[0][3]["p"]["pr"]):
+                return ds[0][3]["p"]      # `ref x` binding of a match guard, read through `*x`
             return p
         ds = body.defs_of(p["l"])
         if len(ds) != 1:
